@@ -21,12 +21,13 @@ Amplitude: amp = dbamp(db); the port adds amp = velocity / 127 (MIDI scaling,
 A value wrapped in Rest makes the event a rest; the number inside still counts
 for timing.
 
-Deliberate restrictions (soundness; see vf/props/C14.py RULE): the generators
-never produce an input on which this reading and the port's in-code notes
-disagree *by design*: fractional degrees (accidentals), ctranspose together with
-a degree source, harmonic != 1 together with an explicit freq, gtranspose / root
-/ explicit note with tunings whose size is not 12 (unit of a "step"), tunings
-with size != 12 and octave ratio != 2.
+Inputs the generators keep out (audit table in vf/props/C14.py): harmonic != 1
+together with an explicit freq (SuperCollider applies harmonic inside the
+default of freq, the port documents it as a modifier of the freq key: the
+statement does not decide), db together with velocity without amp, arrayed
+values, negative durations, keys that override the statement's rules
+(send_gate, has_gate, msg_params, gate) and keys the port notes as missing
+(latency, lag, timing_offset, strum).
 
 Specs are plain json-able data:
   value    := number | {'rest': number}
